@@ -117,6 +117,7 @@ def check_case(ctx, case):
             ctx.violation("T:critical_value_wrong", {"got": gtc, "want": tc, "alpha": alpha, "N": N})
         # statistic and interval only where the variance is well-conditioned (all-equal differences give 0/0)
         if var > 1e-6 * (1e-300 + math.fsum(v * v for v in dd) / max(N - 1, 1)):
+            ctx.count("T_statistic_and_interval_compared")
             if not rel(gt, t, 1e-6):
                 ctx.violation("T:t_statistic_wrong", {"order": tag, "got": gt, "want": t})
             if not (rel(glo, lo, 1e-6, 1e-9 * scale_ig) and rel(ghi, hi, 1e-6, 1e-9 * scale_ig)):
